@@ -391,6 +391,19 @@ class Unit:
             # R21: the item is replaced by a spec function returning the ordered list of field names it writes / reads
             fk, fname = fdir.arg.split()[:2]
             names = X.field_sequence(item, fk, log, root=next((a[5:] for a in fdir.arg.split()[2:] if a.startswith('root=')), 'self'))
+            arm = next((int(a[4:]) for a in fdir.arg.split()[2:] if a.startswith('arm=')), None)
+            if arm is not None:
+                # `arm=K` (TLV tables): the records of the K-th TLV-stream invocation of the function only (0-based)
+                groups, cur = [], None
+                for (n_, l_) in names:
+                    if n_ == '#':
+                        cur = []
+                        groups.append(cur)
+                    elif cur is not None:
+                        cur.append((n_, l_))
+                if arm >= len(groups):
+                    raise Maintenance('%s:%d: R21: no TLV invocation number %d' % (self.path, fdir.line, arm))
+                names = groups[arm]
             only = next((a[5:].split(',') for a in fdir.arg.split()[2:] if a.startswith('only=')), None)
             if only is not None:
                 # `only=a,b,c`: the subsequence of the listed names (nested records and renamed temporaries of a long function are left out)
